@@ -240,10 +240,20 @@ def own_keys(changed, backend, rid):
 def oracle_c17(h):
     res = []
     calls = {}
+    got = collections.defaultdict(set)    # user -> response tags delivered to that user
+    kuser = {}
     for row in h:
         op, obs = row["op"], row["obs"]
         kind = op["op"]
+        if kind == "ufinish" and obs.get("resp_tag"):
+            got[kuser.get(op["k"])].add(obs["resp_tag"])
         if kind == "ustart":
+            kuser[op["k"]] = op["user"]
+            if obs.get("outcome") == "returned" and obs.get("resp_tag"):
+                if obs["resp_tag"] not in got[op["user"]]:
+                    res.append(("user-served-another-users-response", "user %r was answered with response %s, which had only been delivered to %s" % (
+                        op["user"], obs["resp_tag"], sorted(u for u, ts in got.items() if obs["resp_tag"] in ts)), _base(h, row)))
+                got[op["user"]].add(obs["resp_tag"])
             calls["k%d" % op["k"]] = op["rid"]
             if obs.get("outcome") == "stored":
                 eu = obs.get("backend_enduser")
@@ -316,6 +326,8 @@ def oracle_c19(h):
                 res.append(("client-call-hangs", "an end-user call neither returned nor stored its request", _base(h, row)))
             elif obs.get("outcome") == "returned" and obs.get("resp_tag"):
                 t = int(obs["resp_tag"][1:])
+                if obs.get("hdr_ok") is False:
+                    res.append(("client-response-headers-differ", "call %d was answered from the cache with response t%d without all values of its repeated header fields" % (k, t), _base(h, row)))
                 if op["method"] != "GET" or t not in delivered.get((op["user"], op["url"]), set()) or not obs.get("body_ok"):
                     res.append(("client-got-foreign-response", "call %d of %r for %s %s was answered with response t%d which was never delivered for that user and URL" % (k, op["user"], op["method"], op["url"], t), _base(h, row)))
         elif kind == "afetch" and obs["status"] == 200:
@@ -358,6 +370,8 @@ def oracle_c19(h):
                 res.append(("client-got-foreign-response", "call %d received response %r; posted under its ID: %s" % (k, tag, posted[k]), _base(h, row)))
             elif not obs.get("body_ok"):
                 res.append(("client-response-bytes-differ", "call %d received a body that differs from the posted response %s" % (k, tag), _base(h, row)))
+            elif obs.get("hdr_ok") is False:
+                res.append(("client-response-headers-differ", "call %d received response %s without all values of its repeated header fields (X-Multi x3, Set-Cookie x2)" % (k, tag), _base(h, row)))
             else:
                 c = calls[k]["op"]
                 if c["method"] == "GET":
